@@ -170,6 +170,15 @@ def c02(tier, seed):
             if r.startswith('ok '):
                 L.do('!post-addb c0 %s %s %s' % (r.split()[1], Lst(q), d))
             L.do('obs c0')
+            if d == '-' and r.startswith('ok '):
+                # no attributes were given: what is written on the new simplex stays there - another complex, and
+                # simplices added later without attributes, start empty
+                L.do('dset c0 %s 1 9' % r.split()[1])
+                L.do('new c1'); r1 = L.do('addb c1 - [u70,u71] -'); L.do('obs c1'); L.do('!noshare c0 c1')
+                r2 = L.do('addb c0 - [u72,u73] -')
+                if r2.startswith('ok '):
+                    L.do('q c0 attr ' + r2.split()[1]); L.do('q c0 attr u72')
+                L.do('obs c0')
             yield L.case()
         # add by faces: every missing simplex whose facets are present
         P = pts_of(fam)
@@ -435,6 +444,9 @@ def bad_requests(L, rng):
         if miss:
             out.append(('delete missing basis', 'delb c0 ' + Lst(miss[0])))
     out.append(('restrict unknown', 'restrict c0 ' + Lst(pts[:1] + ['u86'])))
+    if pts:
+        out.append(('restrict with a repeated point and an unknown one', 'restrict c0 ' + Lst(pts[:1] + pts[:1] + ['u86'])))
+        out.append(('restrict with every point and an unknown one', 'restrict c0 ' + Lst(pts + ['u86'])))
     if hi:
         out.append(('restrict to a non-point', 'restrict c0 ' + Lst(pts[:1] + [hi[0]])))
     if names:
@@ -1016,6 +1028,10 @@ def c11(tier, seed):
             lines += falsify_lines(fam, 'c0', rng, top_first=(i % 3 != 0))      # existing higher simplices called '', 0, ()
         lines += ['!snap c0', 'flag c0 f', '!lastok flagComplex_of_a_valid_complex', '!flag c0 f', '!same c0', 'obs f', 'alias', '!noshare c0 f', 'flag f g', '!lastok flagComplex_of_a_flag_complex', 'obs g', '!samefam f g',
                   'add f - [] -', '!same c0']
+        if fam and i % 2 == 0:
+            # the flag complex is taken again after an attribute of K changed (names and faces as before)
+            t = tokS(sorted(fam, key=lambda x: (-len(x), sorted(x)))[0])
+            lines += ['dset c0 %s 3 8' % t, 'flag c0 f2', '!lastok flagComplex_again', '!flag c0 f2', 'obs f2', '!noshare c0 f f2']
         yield dict(lines=lines, pool=pool, tag='C11 flag of %s' % (sorted(map(sorted, fam)),))
     for n in (5, 6):
         lines = ['new c0'] + ['add c0 u%d [] -' % p for p in range(n)] + ['addb c0 - [u%d,u%d] -' % (a, b) for a, b in itertools.combinations(range(n), 2)]
@@ -1109,7 +1125,7 @@ def vr_cases(rng, n, dims=(1, 2, 3)):
             r = math.sqrt(x)
             epss += [r, r - 1e-9, r + 1e-9, r / 2]
         eps = rng.choice(epss)
-        L = Live(POOL_NAMES[j % len(POOL_NAMES)], 'VR %s dim=%d eps=%r pts=%r' % (kind, dim, eps, pts), vr_eps=eps)
+        L = Live((POOL_NAMES + ['twin', 'blank'])[j % (len(POOL_NAMES) + 2)], 'VR %s dim=%d eps=%r pts=%r' % (kind, dim, eps, pts), vr_eps=eps)
         L.do('new c0')
         withattrs = (j % 3 == 0)
         early = (j % 5 == 1)
@@ -1522,13 +1538,15 @@ def c17(tier, seed):
             if names:
                 L.do('relabel c0 {%s:u%d}' % (rng.choice(names), 980))
         L.do('!snap c0'); L.do('json c0 c1'); L.do('!lastok JSON_round_trip'); L.do('!samecontent c0 c1'); L.do('!jsontext c0'); L.do('!jsonset c0'); L.do('!same c0')
-        L.do('obs c1'); L.do('q c0 eq c1'); L.do('json c1 c2'); L.do('obs c2')
+        L.do('obs c1'); L.do('q c0 eq c1'); L.do('json c1 c2'); L.do('obs c2'); L.do('!nodictshare c1 c2'); L.do('!noshare c0 c1 c2')
         yield L.case()
     for j in range(200 if tier == 'quick' else 2000):
         g = FiltGen(seed * 4241 + j, ['int', 'str'][j % 2])
         g.run(rng.randrange(4, 14))
         g.do('setidx f %d' % rng.choice(IDX))
-        g.do('json f c1'); g.do('!lastok JSON_round_trip'); g.do('!samecontent f c1'); g.do('!jsontext f'); g.do('obs c1')
+        for _ in range(rng.randrange(0, 3)):
+            g.do(rng.choice(['next f', 'prev f', 'next f', 'minidx f', 'maxidx f']))      # reach the index by stepping
+        g.do('json f c1'); g.do('!lastok JSON_round_trip'); g.do('!samecontent f c1'); g.do('!jsontext f'); g.do('obs c1'); g.do('!nodictshare c1')
         if j % 4 == 0:
             # every simplex deleted again (no index is left): the empty complex
             for t in g.alltoks():
